@@ -129,3 +129,31 @@ func cmdLinPaths(args []string) int {
 	fmt.Printf("%d paths trunc=%v escapes=%v\n", len(tr.Paths), tr.Trunc, tr.Escapes)
 	return 0
 }
+
+// cmdResolve prints how an anchor name resolves on a tree: resolve <name> [repo].
+func cmdResolve(args []string) int {
+	repo := "/repo"
+	if len(args) > 1 {
+		repo = args[1]
+	}
+	p, err := Load(repo, "")
+	if err != nil {
+		fmt.Fprintln(os.Stderr, err)
+		return 2
+	}
+	if f := p.Fn(args[0]); f != nil {
+		fmt.Println("Fn ->", fnName(f))
+	} else {
+		fmt.Println("Fn -> nil")
+	}
+	if strings.HasPrefix(args[0], "(") {
+		end := strings.Index(args[0], ").")
+		recv := strings.TrimPrefix(args[0][1:end], "*")
+		m := p.Method(recv + "." + args[0][end+2:])
+		fmt.Println("Method ->", m)
+	} else if f := p.Field(args[0]); f != nil {
+		fmt.Println("Field ->", f)
+	}
+	fmt.Println("fuzzy:", p.fuzzy)
+	return 0
+}
